@@ -117,4 +117,12 @@ PROPS = {
                         "targets are loaded with CGO_ENABLED=0; the two commands cannot be linked without cgo on android/386, android/amd64, android/arm, ios/* (toolchain restriction) — there the statements range over the library packages, which type-check on all targets",
                         "Policy.Assemble takes its architecture from arch.GetInfo(\"\") only (filter.go), so `GetInfo(\"\")` errors ⇒ no filter; the model side is C07.defective_rejected (noTables)"],
     },
+    "C16": {
+        "lean": ["Seccomp.Proofs.C16"],
+        "streams": [{"stream": "disasm", "profile": "mix", "quick": 3000, "thorough": 100000, "thorough_seeds": 1, "corpus": "disasm"}],
+        "trusted": ["the Lean transcriptions in Model/Disasm.lean of bufio.Scanner (ScanLines, 64 KiB limit), strings.Fields/Contains/HasPrefix/Join, the two regular expressions (leftmost-first, greedy) and strconv.ParseInt(s, 0, 64) — compared with the Go standard library through the parser on every run (disasm stream)",
+                    "Go panics are observed by recover() in the harness and reported as the reply PANIC; the model answers PANIC exactly where one of its slicing/indexing primitives fails, and C16.parse_total proves that never happens"],
+        "assumptions": ["read failures in the middle of a file cannot be injected into os.Open/bufio on the real code without a hook: the implementation is run on a directory (first read fails), a missing path and over-long lines (ErrTooLong after earlier lines were processed); failures after k lines are covered by the theorem on the model only",
+                        "int is 64 bits wide on the host (int(num) is the identity)"],
+    },
 }
